@@ -101,7 +101,7 @@ def run(ctx):
             if blk and c["br"] != c["bc"]: kind = rng.choice(["residual", "residual", "mult_append", "mult", "mult_T"])     # non-square blocks: every product uses its own block size
             tap = 1 if ((rng.random() < 0.35 or (ctx.quick() and P >= 6) or (blk and rng.random() < (0.8 if c["br"] != c["bc"] else 0.5))) and P >= 2) else 0
             ppn = rng.choice([d for d in (1, 2, 3, 4, 8) if P % d == 0 or d >= P]) if tap else 4
-            if tap and P >= 6 and rng.random() < 0.7: ppn = 2          # more nodes than processes per node
+            if tap and P >= 6 and P % 2 == 0 and rng.random() < 0.7: ppn = 2          # more nodes than processes per node
             if tap and rng.random() < 0.5: tap = rng.choice([10, 12])      # rank orderings 0 / 2 of the node-aware package
             T = kind == "mult_T"
             nx = c["nr"] if T else c["nc"]; nb = c["nr"]
@@ -111,7 +111,8 @@ def run(ctx):
                 # directed: transpose products through the node-aware package with more destination nodes than ranks per node
                 n_ = rng.randint(12, 20); fr_ = commgen.rand_partition(rng, P, n_)
                 c.update(nr=n_, nc=n_, fr=fr_, fc=list(fr_), explicit=True, trip=gen.rand_triples(rng, n_, n_, n_ * n_ // 2))
-                kind = "mult_T" if k % 2 == 0 else rng.choice(KINDS); tap = rng.choice([1, 1, 10, 12]); ppn = 2
+                kind = "mult_T" if k % 2 == 0 else rng.choice(KINDS); tap = rng.choice([1, 1, 10, 12])
+                ppn = 2 if P % 2 == 0 else (3 if P % 3 == 0 else 1)        # the node-aware package needs PPN | P (known limitation)
                 T = kind == "mult_T"; nx = c["nr"] if T else c["nc"]; nb = c["nr"]
                 X = gen.rand_vec(rng, nx); B = gen.rand_vec(rng, nb)
                 vt = [nx] + [nums.tok_num(v) for v in X] + [nb] + [nums.tok_num(v) for v in B]
